@@ -349,6 +349,25 @@ class Flow:
                         r = op_root(o)
                         if r is not None:
                             fwd[r].add(l)
+        # stores through a reference to a local: `*link = x` where link = &mut low_bin | &mut high_bin
+        for blk in self.body.blocks:
+            for st in blk["stmts"]:
+                if st["k"] == "assign" and st["dst"]["proj"] == ["deref"]:
+                    rv = st["rv"]
+                    src = op_root(rv["use"]) if "use" in rv else None
+                    if src is None:
+                        continue
+                    seen, stack = set(), [st["dst"]["local"]]
+                    while stack:
+                        r = stack.pop()
+                        if r in seen:
+                            continue
+                        seen.add(r)
+                        for kind, data, pt in self.sources(r):
+                            if kind == "ref" and not data["proj"]:
+                                fwd[src].add(data["local"])
+                            elif kind == "copy":
+                                stack.append(data)
         self._fwd = fwd
 
     def flows_to(self, local, through_agg=True):
